@@ -102,7 +102,12 @@ def field_box(prog, adt, idx):
     if key in _CACHE:
         return _CACHE[key]
     _CACHE[key] = None   # recursion guard
-    if not is_private_struct(prog, adt) or not field_stable(prog, adt, idx):
+    a_ = prog.adts.get(adt)
+    # the field itself must be private (a struct with a private field has no literal outside its module, and every
+    # workspace construction site is in the census below); the other fields may be public
+    if not (a_ and a_["kind"] == "struct" and idx < len(a_["variants"][0]["fields"]) and not a_["variants"][0]["fields"][idx]["pub"]):
+        return None
+    if not field_stable(prog, adt, idx):
         return None
     from .oblig import Ctx
     lo_hi = None
